@@ -85,7 +85,16 @@ class Layout:
                 # selection on axis 0 of a 2-D table = rows
                 self.row_ops.append(f"row selection {tm.show(idx)}")
                 return inner
+            if idx.op in ("call", "cmp", "unop", "attr"):
+                # boolean mask / index array on axis 0: rows are selected
+                self.row_ops.append(f"row selection {tm.show(idx)[:60]}")
+                return inner
             raise LayoutError(f"subscript {tm.show(idx)}")
+        if t.op == "ite":
+            a, b = self.cols(t.args[1]), self.cols(t.args[2])
+            if a != b:
+                raise LayoutError("alternatives with different layouts")
+            return a
         if is_call_to(t, "numpy.roll") and len(t.args[1]) >= 2:
             inner = self.cols(t.args[1][0])
             n = _const_int(t.args[1][1])
